@@ -43,14 +43,17 @@ def configs():
 
 
 TOPOLOGIES = ["orig", "clone_alive", "scope_owns_clone", "helper", "lent", "foreign_thread", "foreign_thread_clone_alive",
-              "created_while_unwinding"]      # the mock is built by cleanup code (a guard's Drop) running while its thread unwinds
+              "created_while_unwinding",
+              "nvid_clone_alive", "nvid"]     # the original was switched to no_verify_in_drop() (with / without a clone alive)      # the mock is built by cleanup code (a guard's Drop) running while its thread unwinds
 
 
 def make_case(origin, terms, probe, arm, topo, variant):
     mid, arg = probe
     evs = []
     inst = 0
-    if topo in ("clone_alive", "foreign_thread_clone_alive"):
+    if topo in ("nvid_clone_alive", "nvid"):
+        evs.append({"base": ("nvid", 0)})
+    if topo in ("clone_alive", "foreign_thread_clone_alive", "nvid_clone_alive"):
         evs.append({"base": ("clone", 0)})
     if topo == "scope_owns_clone":
         evs.append({"base": ("clone", 0)}); inst = 1
